@@ -12,4 +12,36 @@ CLAIMS = {
         note='Bounds: quick n<=4 bytes / k<=2 code points, thorough n<=8 / k<=3. Assumes the container models (models/vpstl.h) for '
              'std::vector/deque, default BOM policy in UNI-RT. Not decided: passes between tokenizer and output editing code points.',
         design_ref='DESIGN.md section 4, C09'),
+    'C08': dict(
+        text='Bounded model checking of the real character writer (src/output.cpp add_char/add_spaces/add_text with write_string): for ALL '
+             'texts of n elements (line break | ASCII character) and ALL per-break mixtures of LF / CR LF / CR, every CR or LF byte written '
+             'belongs to a complete occurrence of the configured terminator, their number equals the number of line breaks, and the bytes '
+             'written do not depend on which terminators the text was read with (two-run product). The solver covers the rare interleavings '
+             '(CR followed by tab, CR at a tab stop, buffered blanks) that no test input exercises.',
+        note='Bounds: quick n<=3 elements, tab size 2/4; thorough n<=5, tab sizes 2..8. Assumes: write_char() replaced by a byte recorder in '
+             'the solver build (real writer: C09), no blank directly before a break unless output_trailspace, container models. Not decided: '
+             'tokenizer side (terminator census) and the comment writers.',
+        design_ref='DESIGN.md section 4, C08'),
+    'C17': dict(
+        text='Bounded model checking of the output stage kernels that own whitespace hygiene (add_char, output_to_column): cpd.column always '
+             'equals the display width of the bytes written, no tab is written when tabs are to be spaces, no tab directly after a space when '
+             'indent_with_tabs (pp_indent_with_tabs for preprocessor lines) is 0, and the gap written to reach a column is TAB* SPACE* of exactly '
+             'the requested width - for all option values the closure reads, all target columns and line prefixes within the bound.',
+        note='Bounds: quick column<=9, tab size 3/4; thorough column<=16, tab size<=8, prefix<=2 chars. Not decided: output_text main loop '
+             '(which chunks get tabs), nl_end_of_file policy, comment trimming.',
+        design_ref='DESIGN.md section 4, C17'),
+    'C05': dict(
+        text='One idempotence mechanism is decided by bounded model checking: the bytes output_to_column() writes, read back with tab stops '
+             'every output_tab_size columns (what the tokenizer does on the next run), place the following token in exactly the requested '
+             'column, for every column / tab size / tab policy within the bound. The byte-level fixed point of the whole pipeline is NOT decided.',
+        note='Bounds as C17/OUT-COL. Restricted claim: the pipeline fixed point (all passes, all programs) cannot be encoded within reach of '
+             'this technique; see DESIGN.md section 4 C05.',
+        design_ref='DESIGN.md section 4, C05'),
+    'C18': dict(
+        text='Only the last mechanism of the property is decided: how a column chosen by the indent pass is realised in bytes. For every '
+             'indent column, tab size and tab policy within the bound, output_to_column() at line start writes the maximal number of tabs '
+             'followed by spaces (or col-1 spaces) of display width exactly col-1; the original column never enters.',
+        note='indent_text() and brace_cleanup(), which choose the column, are not encodable within reach (4 600-line function, frame stack, '
+             '~150 options): that part of C18 is not decided. Bounds as OUT-COL with empty prefix.',
+        design_ref='DESIGN.md section 4, C18'),
 }
